@@ -984,6 +984,8 @@ class BuildManager:
         self.done_sccs: set[int] = set()
         # Meta files whose write failed in this run (their meta_ex files must not be written).
         self.failed_meta_writes: set[str] = set()
+        # Did any module's cache record fail to be replaced in this run?
+        self.cache_write_failed = False
         # Parallel build workers, list is empty for in-process type-checking.
         self.workers: list[WorkerClient] = []
         # We track which workers are currently free in the coordinator process.
@@ -1720,6 +1722,15 @@ PLUGIN_SNAPSHOT_FILE: Final = "@plugins_snapshot.json"
 
 def write_plugins_snapshot(manager: BuildManager) -> None:
     """Write snapshot of versions and hashes of currently active plugins."""
+    if (
+        manager.cache_write_failed
+        and manager.old_plugins_snapshot
+        and manager.old_plugins_snapshot != manager.plugins_snapshot
+    ):
+        # Records written with the previous plugins could not all be replaced, and nothing in a
+        # module's record says which plugin code produced it. Keep the previous snapshot, so that
+        # the next run does not trust any record.
+        return
     snapshot = json_dumps(manager.plugins_snapshot)
     if (
         not manager.metastore.write(PLUGIN_SNAPSHOT_FILE, snapshot)
@@ -2363,6 +2374,7 @@ def write_cache(
             # Most likely the error is the replace() call
             # (see https://github.com/python/mypy/issues/3215).
             manager.log(f"Error writing cache data file {data_file}")
+            manager.cache_write_failed = True
             # Let's continue without writing the meta file.  Analysis:
             # If the replace failed, we've changed nothing except left
             # behind an extraneous temporary file; if the replace
@@ -2377,6 +2389,7 @@ def write_cache(
         data_mtime = manager.getmtime(data_file)
     except OSError:
         manager.log(f"Error in os.stat({data_file!r}), skipping cache write")
+        manager.cache_write_failed = True
         return interface_hash, None
 
     mtime = 0 if bazel else int(st.st_mtime)
@@ -2431,6 +2444,7 @@ def write_cache_meta(meta: CacheMeta, manager: BuildManager, meta_file: str) -> 
         # The next run will simply find the cache entry out of date.
         manager.log(f"Error writing cache meta file {meta_file}")
         manager.failed_meta_writes.add(meta_file)
+        manager.cache_write_failed = True
         return False
     manager.failed_meta_writes.discard(meta_file)
     return True
@@ -2469,6 +2483,7 @@ def invalidate_cache_meta_ex(meta_file: str, manager: BuildManager) -> bool:
         pass
     except OSError:
         manager.log(f"Error removing old meta_ex file for {meta_file}")
+        manager.cache_write_failed = True
         return False
     return True
 
